@@ -82,6 +82,10 @@ def ptfs_stage(prop, cases, name="native", kind="native", **kw):
     return d
 
 
+def c08_stages(tier):
+    return [ptfs_stage("C08", 2_000 if tier == "quick" else 120_000, timeout=2400, crash_is_violation=True)]
+
+
 def c15_stages(tier):
     return [ptfs_stage("C15", 4_000 if tier == "quick" else 150_000, timeout=2400, crash_is_violation=True)]
 
@@ -210,6 +214,22 @@ PROPS = {
         "rule": "case = one history (2-9 steps, optionally after a 10-260 cycle allocator burst); evaluations = save/restore points; distinct = (format, fresh-Vfs "
                 "kind, initialised?, global mapping?, number of mounts, step kind).",
         "assumptions": ["twin NumFs backends are deterministic functions of their id"],
+    },
+    "C08": {
+        "level": "exploration",
+        "stages": c08_stages,
+        "floor": 1000,
+        "technique": "runtime monitoring: client-side reference-count model (entries delivered minus forgotten) compared continuously with the server's counts "
+                     "through a read-only hook, with GETATTR validity probes, number<->host-file bijection checks and a hook-free drain at the end of each history",
+        "level_text": "Histories of lookup / create (new, existing, on a directory) / mkdir / mknod / symlink / link / readdirplus with small buffers (partially "
+                      "delivered) / forget (single, partial, over-counted) / batch_forget / rename / unlink / rmdir over a tree with hard links, for every "
+                      "inode_file_handles x use_host_ino setting. Every third step the server's count of every known inode must equal the model's; GETATTR "
+                      "must succeed iff the count is positive (EBADF otherwise); one host file has one number and keeps it across forget and re-lookup; the "
+                      "root survives forgets. At the end each inode is forgotten down to 1 (still valid) and then to 0 (invalid) without using the hook.",
+        "level_note": "Numbers whose file lost its last name while tracked by file handle are excluded from then on (the statement excludes them; the host inode "
+                      "may be reused). Host-inode identity comes from attr.ino of the replies.",
+        "rule": "evaluations = history steps; distinct = (operation, configuration, number of multiply-referenced inodes).",
+        "assumptions": ["ext4 scratch directory, running as root"],
     },
     "C15": {
         "level": "fault_enumeration",
